@@ -161,6 +161,13 @@ def run_case(ctx, case):
                 continue
             ctx.monitor("file_overwritten_iff_verdict")
             said_yes = any(vs)
+            # the named strategies have a documented meaning of their own
+            want = {"always": True, "never": False, "update": sent[2] > fb[rel][2],
+                    "custom": os.path.basename(rel).startswith("a")}.get(opts["strategy"])
+            if vs and want is not None and any(v != want for v in vs):
+                ctx.violation("named-strategy-verdict-wrong", f"FileSync.{opts['strategy']} returned {vs} where its definition gives {want}",
+                              {"job": key, "file": rel, "src_mtime_ns": sent[2], "dst_mtime_ns": fb[rel][2]})
+                return
             if overwritten and not said_yes:
                 ctx.violation("file-overwritten-without-true-verdict", "a differing file was overwritten although the strategy did not say so",
                               {"job": key, "file": rel, "verdicts": vs, "opts": opts, "raised": repr(err)})
